@@ -114,6 +114,13 @@ Additions for retrospective.py / data.py (reveal_plates, mask_screen, unmask_scr
                       in cfg["vars"] at T is `match x with Some v => let x := v in A | None => B end`: inside A, x has type T.
                       Variables both branches leave bound must end them at the same type (refused otherwise), which is their
                       type afterwards - so an Optional argument that every path replaces by a value is a T after the `if`.
+Additions for the prediction code (common.copy_array_with_control_treatments_set_to_zero, models/sparse_combo.py, models/main.py):
+  typed operators     there is no float / array arithmetic in the structural translation (BinOp is integer-only); the numpy
+                      operators are PRIMS with hole types, overloaded by shape under cfg["overload"] (`__a + __b` at
+                      vec/vec, mat/mat, float/vec ...): an operand combination no prim is declared for is refused.  Float
+                      literals are prims too (`0.01`), any other float constant is refused.
+  cfg["assign_effects"]  a template starting with `!` denotes a `result state` (the store may raise, e.g. numpy's
+                      `a[mask, ...] = 0.0` with a mask of the wrong length): `dor state <- template;`
 """
 import ast
 
@@ -726,6 +733,8 @@ class Tr:
                         raise Unsupported("assignment effect on an unbound state variable: " + var)
                     args = {kk[2:]: self.expr(v, env, hoist)[0] for kk, v in binds.items()}
                     args["state"] = var
+                    if tmpl.startswith("!"):   # an assignment effect that may raise: the template denotes a `result state`
+                        return self.bind_hoist(hoist, "%s%s %s <- %s;\n" % (ind, self.M["bind"], var, tmpl[1:].format(**args)), ind) + self.block(rest, env, k, ind)
                     return self.bind_hoist(hoist, "%slet %s := %s in\n" % (ind, var, tmpl.format(**args)), ind) + self.block(rest, env, k, ind)
             if len(st.targets) != 1:
                 raise Unsupported("multiple assignment: " + ast.unparse(st))
